@@ -1309,3 +1309,59 @@ func (fa *FuncAn) LeafTerms(v ssa.Value) []string {
 	walk(fa, v, 0)
 	return out
 }
+
+// leafValue is a value a result may take, with the function context it lives in.
+type leafValue struct {
+	fa *FuncAn
+	v  ssa.Value
+}
+
+// LeafValues: like LeafTerms, but the values themselves (through φs and through the success
+// returns of helpers extracted from the function).
+func (fa *FuncAn) LeafValues(v ssa.Value) []leafValue {
+	var out []leafValue
+	seen := map[ssa.Value]bool{}
+	var walk func(a *FuncAn, v ssa.Value, depth int)
+	walk = func(a *FuncAn, v ssa.Value, depth int) {
+		if seen[v] || depth > 12 {
+			return
+		}
+		seen[v] = true
+		switch x := v.(type) {
+		case *ssa.Phi:
+			for _, e := range x.Edges {
+				walk(a, e, depth+1)
+			}
+			return
+		case *ssa.Extract, *ssa.Call:
+			idx := 0
+			var call *ssa.Call
+			if ex, ok := x.(*ssa.Extract); ok {
+				idx = ex.Index
+				call, _ = ex.Tuple.(*ssa.Call)
+			} else {
+				call = x.(*ssa.Call)
+			}
+			if call != nil {
+				if g := call.Call.StaticCallee(); g != nil && newHelper(g) && g != a.Fn && a.R.inlineDepth < 3 {
+					sub := NewFuncAnCtx(a.W, g, a.CallArgs(call))
+					sub.R.inlineDepth = a.R.inlineDepth + 1
+					found := false
+					for _, ex := range sub.Exits() {
+						rs := RetResults(ex.Ret)
+						if idx < len(rs) {
+							found = true
+							walk(sub, rs[idx], depth+1)
+						}
+					}
+					if found {
+						return
+					}
+				}
+			}
+		}
+		out = append(out, leafValue{a, v})
+	}
+	walk(fa, v, 0)
+	return out
+}
